@@ -8,6 +8,7 @@ import Csproto.Props.C03Source
 import Csproto.Bridge.SeekFuncs
 import Csproto.Bridge.PackedFuncs
 import Csproto.Props.C03SourcePacked
+import Csproto.Props.C03SourceRange
 /- axiom audit for C03 -/
 open Csproto
 #print axioms C03.step_safe
@@ -106,3 +107,26 @@ open Csproto
 #print axioms Csproto.C03.Source.DecodePackedFixed64_total
 #print axioms Csproto.C03.Source.DecodePackedFixed32_total
 #print axioms Csproto.C03.Source.DecodePackedBool_total
+
+-- the cursor clause for the translated source: after every call the cursor is inside the buffer (Props/C03SourceRange.lean)
+#print axioms Csproto.C03.Source.model_inrange
+#print axioms Csproto.C03.Source.DecodeUInt64_inrange
+#print axioms Csproto.C03.Source.DecodeInt64_inrange
+#print axioms Csproto.C03.Source.DecodeUInt32_inrange
+#print axioms Csproto.C03.Source.DecodeInt32_inrange
+#print axioms Csproto.C03.Source.DecodeSInt32_inrange
+#print axioms Csproto.C03.Source.DecodeSInt64_inrange
+#print axioms Csproto.C03.Source.DecodeFixed32_inrange
+#print axioms Csproto.C03.Source.DecodeFixed64_inrange
+#print axioms Csproto.C03.Source.DecodeBool_inrange
+#print axioms Csproto.C03.Source.DecodeBytes_inrange
+#print axioms Csproto.C03.Source.Skip_inrange
+#print axioms Csproto.C03.Source.DecodePackedUint64_inrange
+#print axioms Csproto.C03.Source.DecodePackedInt64_inrange
+#print axioms Csproto.C03.Source.DecodePackedUint32_inrange
+#print axioms Csproto.C03.Source.DecodePackedInt32_inrange
+#print axioms Csproto.C03.Source.DecodePackedSint64_inrange
+#print axioms Csproto.C03.Source.DecodePackedSint32_inrange
+#print axioms Csproto.C03.Source.DecodePackedFixed64_inrange
+#print axioms Csproto.C03.Source.DecodePackedFixed32_inrange
+#print axioms Csproto.C03.Source.DecodePackedBool_inrange
